@@ -95,7 +95,11 @@ def run_case(c, d):
                 p = E.build_reused(cls, d['p'], data, NFFT=NFFT, fs=d['fs'], scale=False, salt=d['reuse'])
             else:
                 p = E.build(cls, d['p'], data, NFFT=NFFT, fs=d['fs'], scale=False)
-            log.append({'role': role, 'psd': np.asarray(p.psd), 'sides': p.sides, 'error': None})
+            log.append({'role': role, 'psd': np.array(p.psd, copy=True), 'sides': p.sides, 'error': None})
+            # the object is short lived (as in a helper that returns only the values): nothing the next object does
+            # may depend on what a dead one left behind (module-level caches keyed by addresses that get recycled)
+            p = None
+            prebuilt.pop(role, None)
         except Exception as exc:
             log.append({'role': role, 'psd': None, 'error': exc})
     if log[0]['error'] is not None:
